@@ -345,6 +345,19 @@ func tfSchema() *schema.BodySchema {
 				DependentBody: map[schema.SchemaKey]*schema.BodySchema{
 					labelDep(0, "aws_instance"):  instanceBody(),
 					labelDep(0, "aws_s3_bucket"): bucketBody(),
+					// the provider-alias pattern: the same label value again, keyed additionally by an attribute, with another body
+					schema.NewSchemaKey(schema.DependencyKeys{
+						Labels: []schema.LabelDependent{{Index: 0, Value: "aws_s3_bucket"}},
+						Attributes: []schema.AttributeDependent{{Name: "provider", Expr: schema.ExpressionValue{
+							Address: lang.Address{lang.RootStep{Name: "aws"}, lang.AttrStep{Name: "east"}}}}},
+					}): func() *schema.BodySchema {
+						b := bucketBody()
+						b.Detail = "bucket (east)"
+						b.Description = md("A bucket body of the aliased provider")
+						b.IsDeprecated = true
+						b.Attributes["east_only"] = &schema.AttributeSchema{IsRequired: true, Constraint: schema.LiteralType{Type: cty.String}}
+						return b
+					}(),
 					labelDep(0, "null_resource"): {
 						Attributes: map[string]*schema.AttributeSchema{
 							"triggers": {IsOptional: true, Constraint: schema.AnyExpression{OfType: cty.Map(cty.String)}},
